@@ -645,6 +645,13 @@ def store6(ctx) -> List[Ob]:
                     t = s.test
                     conj = t.values if isinstance(t, ast.BoolOp) and isinstance(t.op, ast.And) else [t]
                     guard = any(isinstance(v, ast.Call) and isinstance(v.func, ast.Name) and v.func.id == "isinstance" and len(v.args) == 2 and isinstance(v.args[0], ast.Name) and v.args[0].id in carriers and any(n.split(".")[-1] == "RegionBlock" for n in (_class_names(v.args[1]) or [])) for v in conj)
+                    # an exact type test is equivalent while RegionBlock has no subclass
+                    if not guard and not prog.subclasses(prog.cls("RegionBlock"), strict=True):
+                        for v in conj:
+                            if isinstance(v, ast.Compare) and len(v.ops) == 1 and isinstance(v.ops[0], (ast.Is, ast.Eq)):
+                                l, r = v.left, v.comparators[0]
+                                if isinstance(l, ast.Call) and isinstance(l.func, ast.Name) and l.func.id == "type" and l.args and isinstance(l.args[0], ast.Name) and l.args[0].id in carriers and (A.dotted(r) or "").split(".")[-1] == "RegionBlock":
+                                    guard = True
                     if not guard:
                         return False
                     for k in A.walk_no_nested(ast.Module(s.body, [])):
